@@ -3,7 +3,7 @@
 (* validator gave for each value of the value list, in both input forms (float64 and     *)
 (* json.Number) and through IsMatching.  TLC evaluates the reference semantics           *)
 (* (SchemaSem!Valid) on each (schema, value) and rejects the line on any difference.     *)
-EXTENDS SchemaUniverse, FindingsC01, Json, CSV
+EXTENDS SchemaUniverse, SchemaImpl, FindingsC01, Json, CSV
 
 Trace == ndJsonDeserialize("trace.ndjson")
 
@@ -14,6 +14,14 @@ Spec == Init /\ [][Next]_l
 
 TheVals(line) == IF "vals" \in DOMAIN line THEN line.vals ELSE Vals
 Want(s, v) == IF Valid(s, v, "plain") THEN "A" ELSE "R"
+
+(* model fidelity: the code's verdicts are exactly those of the implementation-shaped model *)
+Acc(b) == IF b THEN "A" ELSE "R"
+ModelAgrees(line) ==
+   LET vs == TheVals(line) IN
+   \A i \in DOMAIN vs : /\ line.of[i] = Acc(Accepts(line.s, vs[i], "f64"))
+                        /\ line.om[i] = Acc(Accepts(line.s, vs[i], "f64"))
+                        /\ line.on[i] = Acc(Accepts(line.s, vs[i], "num"))
 
 Mismatches(line) ==
    LET vs == TheVals(line) IN
@@ -31,6 +39,8 @@ LineOK(line) ==
                                     failed |-> "schema_does_not_load"])>>, "violations.ndjson")
    ELSE /\ \A m \in Mismatches(line) :
               CSVWrite("%1$s", <<ToJson(Report(line, m))>>, "violations.ndjson")
+        /\ ModelAgrees(line)
+              \/ CSVWrite("%1$s", <<ToJson([case |-> line.case, s |-> line.s, what |-> "verdict differs from SchemaImpl"])>>, "fidelity.ndjson")
         /\ ("rs" \in DOMAIN line /\ line.rs = line.s)
               \/ CSVWrite("%1$s", <<ToJson([case |-> line.case, s |-> line.s])>>, "fidelity.ndjson")
 
